@@ -233,8 +233,8 @@ func c05run(c c05case) (o c05obs) {
 			var out res
 			select {
 			case out = <-ch:
-			case <-time.After(30 * time.Second):
-				o.Kind, o.Err = "hang", fmt.Sprintf("pipeline did not finish in 30 s: %+v", kk)
+			case <-time.After(180 * time.Second):
+				o.Kind, o.Err = "hang", fmt.Sprintf("pipeline did not finish in 180 s: %+v", kk)
 				return
 			}
 			if out.err != nil {
